@@ -29,7 +29,7 @@ pub fn vf_to_vec(s: &[u8]) -> (r: Vec<u8>) ensures r@ == s@ { unimplemented!() }
 pub struct Bs58Error { pub c: u8 }
 #[verifier::external_body]
 pub fn vf_bs58_decode(s: &Vec<u8>) -> (r: Result<Vec<u8>, Bs58Error>)
-    ensures r matches Ok(v) ==> spec_bs58_decode(s@) == Some(v@) { unimplemented!() }
+    ensures r matches Ok(v) ==> spec_bs58_decode(s@) == Some(v@), spec_bs58_decode(s@) is Some ==> r is Ok { unimplemented!() }
 pub uninterp spec fn spec_bs58_decode(s: Seq<u8>) -> Option<Seq<u8>>;
 pub uninterp spec fn spec_sha256(b: Seq<u8>) -> Seq<u8>;
 #[verifier::external_body]
@@ -47,11 +47,14 @@ impl Sha256 {
 impl VfSliceable<u8> for Sha256Out { open spec fn sl_view(&self) -> Seq<u8> { self.b@ } }
 pub struct Utf8Error { pub c: u8 }
 #[verifier::external_body]
-pub fn vf_str_from_utf8(b: &[u8]) -> (r: Result<&str, Utf8Error>) { unimplemented!() }
+pub fn vf_str_from_utf8(b: &[u8]) -> (r: Result<&str, Utf8Error>) ensures r matches Ok(s) ==> spec_utf8_text(b@) == Some(s@), spec_utf8_text(b@) is Some ==> r is Ok { unimplemented!() }
+// the text a byte string is as UTF-8 (None: not UTF-8); whether a text matches regex number `r` (0: header, 1: footer)
+pub uninterp spec fn spec_utf8_text(b: Seq<u8>) -> Option<Seq<char>>;
+pub uninterp spec fn spec_regex_match(r: u8, s: Seq<char>) -> bool;
 pub struct Regex { pub r: u8 }
 impl Regex {
     #[verifier::external_body]
-    pub fn is_match(&self, s: &str) -> (r: bool) { unimplemented!() }
+    pub fn is_match(&self, s: &str) -> (r: bool) ensures r == spec_regex_match(self.r, s@) { unimplemented!() }
 }
-pub exec const HEADER_REGEX: Regex = Regex { r: 0 };
-pub exec const FOOTER_REGEX: Regex = Regex { r: 1 };
+pub const HEADER_REGEX: Regex = Regex { r: 0 };
+pub const FOOTER_REGEX: Regex = Regex { r: 1 };
